@@ -3,8 +3,10 @@ package main
 import (
 	"fmt"
 	"go/ast"
+	"go/constant"
 	"go/token"
 	"go/types"
+	"sort"
 	"strings"
 
 	"golang.org/x/tools/go/ssa"
@@ -199,38 +201,58 @@ func ruleRegistryKey(c *Ctx) {
 			c.Oblige("T.key", false, token.NoPos, "plenc.baseRegistry."+m, m, "not found", nil)
 			continue
 		}
-		info := fn.Pkg.TypesInfo
-		params := paramObjs(info, fn.Decl)
-		byName := map[string]types.Object{}
-		for _, po := range params {
-			if po != nil {
-				byName[po.Name()] = po
+		// on SSA: every registryKey value handed to the sync.Map has its typ field
+		// stored from the typ parameter and its tag field from the tag parameter
+		// (a composite literal and field-by-field assignment are the same here)
+		f := p.ssaFunc("plenc.baseRegistry." + m)
+		if f == nil {
+			c.Oblige("T.key", false, fn.Decl.Pos(), fn.Name(), "registryKey{typ, tag}", "no SSA body", nil)
+			continue
+		}
+		byName := map[string]*ssa.Parameter{}
+		for _, prm := range f.Params {
+			byName[prm.Name()] = prm
+		}
+		var typP, tagP *ssa.Parameter
+		for _, prm := range f.Params {
+			if typeName(prm.Type()) == "Type" && typP == nil {
+				typP = prm
+			}
+			if isStringType(prm.Type()) && tagP == nil {
+				tagP = prm
 			}
 		}
 		found := false
-		ast.Inspect(fn.Decl.Body, func(n ast.Node) bool {
-			cl, ok := n.(*ast.CompositeLit)
-			if !ok || typeName(info.TypeOf(cl)) != "registryKey" {
-				return true
-			}
-			found = true
-			got := map[string]bool{}
-			for _, e := range cl.Elts {
-				kv, ok := e.(*ast.KeyValueExpr)
-				if !ok {
+		for _, b := range f.Blocks {
+			for _, in := range b.Instrs {
+				al, ok := in.(*ssa.Alloc)
+				if !ok || typeName(deref(al.Type())) != "registryKey" {
 					continue
 				}
-				k := kv.Key.(*ast.Ident).Name
-				if id, ok := ast.Unparen(kv.Value).(*ast.Ident); ok && info.Uses[id] == byName[k] && byName[k] != nil {
-					got[k] = true
+				found = true
+				got := map[string]bool{}
+				nst := map[string]int{}
+				for _, r := range *al.Referrers() {
+					fa, ok := r.(*ssa.FieldAddr)
+					if !ok {
+						continue
+					}
+					for _, r2 := range *fa.Referrers() {
+						if st, ok := r2.(*ssa.Store); ok && st.Addr == ssa.Value(fa) {
+							k := fieldName(fa)
+							nst[k]++
+							if (k == "typ" && typP != nil && st.Val == ssa.Value(typP)) || (k == "tag" && tagP != nil && st.Val == ssa.Value(tagP)) {
+								got[k] = true
+							}
+						}
+					}
 				}
+				c.Oblige("T.key", got["typ"] && got["tag"] && nst["typ"] == 1 && nst["tag"] == 1, al.Pos(), fn.Name(), "registryKey{typ, tag}",
+					"the registry key must be built from the method's own typ and tag parameters (dropping tag would make flat/intern/proto registrations collide with the plain ones)", nil)
 			}
-			c.Oblige("T.key", got["typ"] && got["tag"], cl.Pos(), fn.Name(), "registryKey{typ, tag}",
-				"the registry key must be built from the method's own typ and tag parameters (dropping tag would make flat/intern/proto registrations collide with the plain ones)", nil)
-			return true
-		})
+		}
 		if !found {
-			c.Oblige("T.key", false, fn.Decl.Pos(), fn.Name(), "registryKey{typ, tag}", "no registryKey literal found: undecided", nil)
+			c.Oblige("T.key", false, fn.Decl.Pos(), fn.Name(), "registryKey{typ, tag}", "no registryKey value found: undecided", nil)
 		}
 	}
 	// argument threading of the Plenc methods
@@ -384,35 +406,51 @@ func ruleOptionScope(c *Ctx) {
 		fmt.Sprintf("each option must be read at exactly one place (found %v)", count), nil)
 	c.Floor("X.who.option", 3)
 
-	// decision points select the documented codecs
+	// decision points select the documented codecs. Decided on SSA by forcing the
+	// option: with the option set, the then-codec is built on a feasible path and
+	// its value reaches a use while the else-codec's value reaches none; with the
+	// option cleared the else-codec's value reaches a use. (How the test is
+	// written - if/else, negated, a default overwritten under the option - does
+	// not matter; other disjuncts such as tag == "proto" stay free.)
 	check := func(fnName, field, thenType, elseType string) {
-		fn := p.findFunc("plenc", "Plenc", fnName)
-		if fn == nil {
+		f := p.ssaFunc("plenc.Plenc." + fnName)
+		if f == nil {
 			c.Oblige("X.dom.option", false, token.NoPos, "plenc.Plenc."+fnName, field, "function not found", nil)
 			return
 		}
-		info := fn.Pkg.TypesInfo
-		found := false
-		ast.Inspect(fn.Decl.Body, func(n ast.Node) bool {
-			ifs, ok := n.(*ast.IfStmt)
-			if !ok || !condEnables(info, ifs.Cond, field) {
-				return true
+		liveUnder := func(force bool) (map[string]bool, bool) {
+			fe := feasibleUnder(f, func(v ssa.Value) (constant.Value, bool) {
+				u, ok := v.(*ssa.UnOp)
+				if !ok || u.Op != token.MUL {
+					return nil, false
+				}
+				fa, ok := u.X.(*ssa.FieldAddr)
+				if ok && fieldName(fa) == field && len(f.Params) > 0 && fa.X == ssa.Value(f.Params[0]) {
+					return constant.MakeBool(force), true
+				}
+				return nil, false
+			})
+			live := map[string]bool{}
+			for _, b := range f.Blocks {
+				if !fe.reach[b] {
+					continue
+				}
+				for _, in := range b.Instrs {
+					if mi, ok := in.(*ssa.MakeInterface); ok {
+						tn := typeName(mi.X.Type())
+						if (tn == thenType || tn == elseType) && fe.live(mi) {
+							live[tn] = true
+						}
+					}
+				}
 			}
-			found = true
-			th := codecLitsIn(p, info, ifs.Body)
-			var el []string
-			if ifs.Else != nil {
-				el = codecLitsIn(p, info, ifs.Else)
-			}
-			ok2 := len(th) == 1 && th[0] == thenType && len(el) == 1 && el[0] == elseType
-			c.Oblige("X.dom.option", ok2, ifs.Pos(), fn.Name(), field+" selects "+thenType+" / "+elseType,
-				fmt.Sprintf("the option must select exactly the documented codec: then-branch builds %v, else-branch builds %v", th, el), nil)
-			return true
-		})
-		if !found {
-			c.Oblige("X.dom.option", false, fn.Decl.Pos(), fn.Name(), field+" selects "+thenType+" / "+elseType,
-				"no if statement whose condition is enabled by the option (a negated, ignored or constant-folded option does not count)", nil)
+			return live, fe.sawLeaf
 		}
+		on, saw1 := liveUnder(true)
+		off, saw2 := liveUnder(false)
+		ok2 := saw1 && saw2 && on[thenType] && !on[elseType] && off[elseType]
+		c.Oblige("X.dom.option", ok2, f.Pos(), ssaFuncName(f), field+" selects "+thenType+" / "+elseType,
+			fmt.Sprintf("the option must select exactly the documented codec: with it set the codecs whose value reaches a use are %v, with it cleared %v (option read: %v)", keysOf(on), keysOf(off), saw1 && saw2), nil)
 	}
 	check("CodecForTypeRegistry", "ProtoCompatibleArrays", "ProtoSliceWrapper", "WTLengthSliceWrapper")
 	check("RegisterDefaultCodecs", "ProtoCompatibleTime", "TimeCompatCodec", "TimeCodec")
@@ -446,5 +484,16 @@ func codecLitsIn(p *Prog, info *types.Info, n ast.Node) []string {
 		}
 		return true
 	})
+	return out
+}
+
+func keysOf(m map[string]bool) []string {
+	var out []string
+	for k, v := range m {
+		if v {
+			out = append(out, k)
+		}
+	}
+	sort.Strings(out)
 	return out
 }
